@@ -196,6 +196,10 @@ func (tx *Transaction) UnmarshalJSON(input []byte) error {
 			return ErrInvalidSig
 		}
 	}
+	// a negative number can't be RLP encoded, so the transaction would have no hash of its own
+	if (dec.Amount != nil && dec.Amount.Sign() < 0) || (dec.GasPrice != nil && dec.GasPrice.Sign() < 0) {
+		return ErrNegativeValue
+	}
 
 	*tx = Transaction{data: dec}
 	return nil
